@@ -25,7 +25,9 @@ var registry = map[string]func(*rules.Ctx){
 	"C09": rules.C09,
 	"C10": rules.C10,
 	"C12": rules.C12,
+	"C14": rules.C14,
 	"C15": rules.C15,
+	"C17": rules.C17,
 	"C18": rules.C18,
 	"C19": rules.C19,
 }
